@@ -144,15 +144,6 @@ Definition cell_expect (c : cell) : expect :=
       end
   end.
 
-(* finding F22: underscored property + public field + plain value + an annotation that
-   implies a fresh product *)
-Definition cell_safe (c : cell) : bool :=
-  let '(st, (k, (_, implied))) := c in
-  match st, k, implied with
-  | UnderPub, KValue, XFresh _ | UnderPub, KValueNone, XFresh _ => false
-  | _, _, _ => true
-  end.
-
 Definition run_matches (r : result run) (next : N) (lg : list (pstr * value)) (nx : N) : bool :=
   match r with
   | Ok r' => list_eqb entry_eqb (log r') lg
